@@ -1,6 +1,10 @@
 package c02
 
-import "verif/harness/pbt"
+import (
+	"os"
+
+	"verif/harness/pbt"
+)
 
 // Not a finding - a pinned input. Side remark 1 of the round-7 breaker: one HIP record (owner root,
 // HIT and public key of length 0) whose RDATA is 32624 copies of the pointer C0 0C to a question
@@ -8,7 +12,15 @@ import "verif/harness/pbt"
 // 168 B per input octet, which is inside the fixed multiple C02 asks for (see allocBound). The
 // probe runs at every start and fails - as an unlisted finding, i.e. a violation - if decoding
 // this input ever leaves the allocation or time bound or stops returning.
+//
+// Not in the processes of a native fuzz campaign (vcheck sets VERIF_FUZZ=1 for them): the coordinator
+// and each of its 16 workers would run it at start, on an instrumented binary, and on a busy machine
+// that alone took more than 30 s before the first input was tried (round 9: `--fuzztime 30` ended with
+// 0 execs for all four targets). The rapid shards of both tiers still run it.
 func init() {
+	if os.Getenv("VERIF_FUZZ") == "1" {
+		return
+	}
 	pbt.Probe("pointer-flood-within-bound", func() error {
 		w := pointerMsg(fillClasses[8], true, "hip-servers", 65534)
 		if len(w) != 65534 {
